@@ -2,8 +2,8 @@ package main
 
 import (
 	"fmt"
-	"os"
 	"go/types"
+	"os"
 	"sort"
 	"strings"
 	"sync"
@@ -15,53 +15,53 @@ import (
 // the prelude (datatypes, uninterpreted model functions, type tags), the
 // script, and the registries that give Go types their SMT image.
 type World struct {
-	l             *Loaded
-	specs         *Specs
-	sc            *Script
-	pre           []string
-	preSeen       map[string]bool
-	tags          map[string]int
-	tagTypes      []types.Type
-	heapSort      map[string]Sort
-	heapRef       map[string]bool
-	epochN        int
-	frameN        int
-	assumps       map[string]bool // abstractions actually used (reported in evidence)
-	obls          []*Obligation
-	fnIDs         map[*ssa.Function]int
-	fnByID        map[int]*ssa.Function
-	closures      map[string]*FnVal // term text -> closure info
-	inlineDepth   int
-	curFn         string
-	unsupported   []string
-	callOrd       map[string]int
-	smoke         []smokePoint
-	dynOf         map[string]*Val
-	implFacts     map[string]types.Type
-	ranges        map[*ssa.Range]*rangeState
-	rangeKey      map[*ssa.Range]string
-	havocked      []string
-	inlined       map[string]bool
-	usedContracts map[string]*Contract
-	topContract   *Contract
-	splits        []Term
-	quantFacts    []quantFact
-	loopFreshOnly map[string]bool
-	loopPreserved map[string]bool
+	l              *Loaded
+	specs          *Specs
+	sc             *Script
+	pre            []string
+	preSeen        map[string]bool
+	tags           map[string]int
+	tagTypes       []types.Type
+	heapSort       map[string]Sort
+	heapRef        map[string]bool
+	epochN         int
+	frameN         int
+	assumps        map[string]bool // abstractions actually used (reported in evidence)
+	obls           []*Obligation
+	fnIDs          map[*ssa.Function]int
+	fnByID         map[int]*ssa.Function
+	closures       map[string]*FnVal // term text -> closure info
+	inlineDepth    int
+	curFn          string
+	unsupported    []string
+	callOrd        map[string]int
+	smoke          []smokePoint
+	dynOf          map[string]*Val
+	implFacts      map[string]types.Type
+	ranges         map[*ssa.Range]*rangeState
+	rangeKey       map[*ssa.Range]string
+	havocked       []string
+	inlined        map[string]bool
+	usedContracts  map[string]*Contract
+	topContract    *Contract
+	splits         []Term
+	quantFacts     []quantFact
+	loopFreshOnly  map[string]bool
+	loopPreserved  map[string]bool
 	loopFreshAlloc map[string]bool
-	indexTerms    []Term
-	topEntry      *State
-	firedAsserts  map[*AssertSpec]bool
-	pendingExtra  []string
-	loopKeysExtra []string
-	curBlock      *ssa.BasicBlock
-	muted         int
-	forcedNext    map[*ssa.Next]*Val
-	loopTargets   map[string][]loopTarget
-	loopWhole     map[string]bool
-	axioms        []axiomLine
-	axiomSrc      []string
-	replay        *replayPlan
+	indexTerms     []Term
+	topEntry       *State
+	firedAsserts   map[*AssertSpec]bool
+	pendingExtra   []string
+	loopKeysExtra  []string
+	curBlock       *ssa.BasicBlock
+	muted          int
+	forcedNext     map[*ssa.Next]*Val
+	loopTargets    map[string][]loopTarget
+	loopWhole      map[string]bool
+	axioms         []axiomLine
+	axiomSrc       []string
+	replay         *replayPlan
 }
 
 type axiomLine struct {
